@@ -28,6 +28,10 @@ static ssize_t rd(void *ck, char *buf, size_t size) {
     sim::yield(sim::PK_HARNESS, nullptr, 10);
     size_t limit = size;
     if (g_script.chunk && limit > g_script.chunk) limit = g_script.chunk;
+    if (g_script.read_errno && c->errored && g_script.read_error_persistent) {
+        errno = g_script.read_errno;
+        return -1;
+    }
     if (g_script.read_errno && !c->errored) {
         if (c->pos >= g_script.read_error_at) {
             c->errored = true;
